@@ -8,6 +8,7 @@
 //!   panic_vmap     <search> <replace>          generate_variant_map: `no-empty-key` | `empty-key`
 //!   panic_upper    <utf8>                      case_constraints::can_match_style (reaches has_consecutive_uppercase)
 //!   panic_find     <content> <variant>...      build_pattern + find_matches
+//!   panic_replace  <content> <pattern> <replacement> <regex|literal>   scanner::create_simple_plan (the planner of `replace`)
 //!   panic_compound <identifier> <old> <new>   compound_matcher::find_compound_variants, all styles
 //! Result: `panic` | `nopanic` (panic_vmap: `panic` | `no-empty-key` | `empty-key`).
 use crate::util::*;
@@ -97,6 +98,21 @@ pub fn dispatch(f: &[&str]) -> Option<String> {
             Some(verdict(catch_unwind(AssertUnwindSafe(|| {
                 renamify_core::build_pattern(&vars).map(|p| renamify_core::find_matches(&p, &c, "f").len())
             }))))
+        },
+        Some("panic_replace") => {
+            // panic_replace <file content> <pattern> <replacement> <regex|literal>: scanner::create_simple_plan on a one-file tree
+            if f.len() != 5 { return Some("bad-req".into()); }
+            let (Some(c), Some(p), Some(r)) = (unhex(f[1]), unhex_str(f[2]), unhex_str(f[3])) else { return Some("bad-req".into()) };
+            if p.is_empty() && f[4] != "regex" { return Some("nopanic".into()); }
+            let dir = fresh("r");
+            std::fs::write(dir.join("a.txt"), &c).unwrap();
+            let opts = renamify_core::scanner::PlanOptions::default();
+            let is_regex = f[4] == "regex";
+            let res = catch_unwind(AssertUnwindSafe(|| {
+                renamify_core::scanner::create_simple_plan(&p, &r, vec![dir.clone()], &opts, is_regex).map(|pl| pl.matches.len()).ok()
+            }));
+            let _ = std::fs::remove_dir_all(&dir);
+            Some(verdict(res))
         },
         Some("panic_compound") => {
             if f.len() != 4 { return Some("bad-req".into()); }
